@@ -162,3 +162,31 @@ package gcrypto
 //@   modifies nothing
 //@ iface KeyIDChecker.IsValid(c, keyID)
 //@   modifies nothing
+
+// ---- construction and validation of finalized proofs (C13) ----
+//@ func NewSimpleCommonMessageSignatureProof
+//@   property C13 C05
+//@   panics_if len(candidateKeys) == 0
+//@   ensures result1 == nil && SInv(result0) && result0.msg == msg && result0.keys == candidateKeys && result0.keyHash == pubKeyHash
+//@   ensures empty: forall i mathint :: {bsbits(result0.bitset)[i]} !bsbits(result0.bitset)[i]
+//@   ensures private-state: fresh(result0.bitset) && fresh(result0.sigs) && fresh(result0.keyIdxs)
+//@   establishes pbits(asiface(result0)) == bsbits(result0.bitset)
+//@   modifies nothing
+//@   loop 1 invariant index-map: keyIdxs != nil && fresh(keyIdxs) &&
+//@       (forall kb string :: {rawdom(keyIdxs)[kb]} kb in keyIdxs ==> 0 <= keyIdxs[kb] && keyIdxs[kb] < len(candidateKeys) && keybytes(candidateKeys[keyIdxs[kb]]) == kb)
+
+// ValidateFinalizedProof: the bit sets it returns are pairwise disjoint exactly when it reports "all signatures unique";
+// a reported double signer (false) comes with the bit sets that overlap.
+//@ define disjointSets(m) = forall h1 string, h2 string, i mathint :: {bsbits(mapvals(m)[h1])[i], bsbits(mapvals(m)[h2])[i]}
+//@     h1 in m && h2 in m && h1 != h2 ==> !(bsbits(mapvals(m)[h1])[i] && bsbits(mapvals(m)[h2])[i])
+//@ func SimpleCommonMessageSignatureProofScheme.ValidateFinalizedProof
+//@   property C13 C01
+//@   requires len(proof.Keys) > 0
+//@   ensures unique-means-disjoint: result1 ==> result0 != nil && disjointSets(result0)
+//@   modifies nothing
+//@   loop 1 invariant out-private: out != nil && fresh(out) && (forall h string :: {rawdom(out)[h]} h in out ==> mapvals(out)[h] != nil && fresh(mapvals(out)[h]) && base(mapvals(out)[h]) <= top())
+//@   loop 2 invariant out-kept: out != nil && (forall h string :: {rawdom(out)[h]} h in out ==> mapvals(out)[h] != nil && mapvals(out)[h] != addr(all) && mapvals(out)[h] != addr(scratch))
+//@   loop 2 invariant all-covers-visited: forall h string, i mathint :: {visited(2)[h], bsbits(mapvals(out)[h])[i]} visited(2)[h] && bsbits(mapvals(out)[h])[i] ==> bsbits(all)[i]
+//@   loop 2 invariant visited-disjoint: forall h1 string, h2 string, i mathint :: {bsbits(mapvals(out)[h1])[i], bsbits(mapvals(out)[h2])[i]}
+//@       visited(2)[h1] && visited(2)[h2] && h1 != h2 ==> !(bsbits(mapvals(out)[h1])[i] && bsbits(mapvals(out)[h2])[i])
+//@   loop 2 invariant visited-in-out: forall h string :: {visited(2)[h]} visited(2)[h] ==> (h in out)
